@@ -58,6 +58,11 @@ type Config struct {
 	MixedFamilyPct int // % of rules that get a CIDR of the other family (default 5; -1 = never)
 	CatchAllNegPct int // % of negated CIDR lists that get 0.0.0.0/0 or ::/0 (default 2; -1 = never)
 	AnnotationPct  int // % of rules with metadata annotations (default 5; -1 = never)
+	// NoNamedPorts / NoICMP restrict SimpleRule (and Rule) to features every dataplane supports
+	// (used by the cross-dataplane agreement check): no named-port IP sets, no ICMP protocol or
+	// ICMP type/code criteria.
+	NoNamedPorts bool
+	NoICMP       bool
 }
 
 // DefaultConfig returns the defaults described on Config.
@@ -397,6 +402,10 @@ func (g *Gen) Rule(ipVersion uint8) *proto.Rule {
 		portProtoName = portProtoNames[i]
 		r.Protocol = protoNum([]int32{6, 17, 132}[i])
 		portProto = true
+	case k < 17 && g.Cfg.NoICMP:
+		portProtoName = portProtoNames[g.R.Intn(3)]
+		r.Protocol = protoName(portProtoName)
+		portProto = true
 	case k < 16: // ICMP by name: the calc graph infers the IP version from the name
 		if v == 4 {
 			r.Protocol = protoName("icmp")
@@ -538,7 +547,7 @@ func (g *Gen) Rule(ipVersion uint8) *proto.Rule {
 			r.NotDstPorts = g.portList(g.Cfg.MaxPorts)
 		}
 	}
-	if portProto || r.Protocol == nil {
+	if (portProto || r.Protocol == nil) && !g.Cfg.NoNamedPorts {
 		np := func() []string {
 			var out []string
 			for i, n := 0, 1+g.R.Intn(g.Cfg.MaxNamedPorts); i < n; i++ {
